@@ -938,6 +938,9 @@ type Inst struct {
 	// options when the inputs cannot form a set).
 	ViaSet     bool
 	ViaSetUsed int
+	// MixCase spells the names of the supplied values with random casing
+	// (names are matched case-insensitively).
+	MixCase *rand.Rand
 	// GroupTyped supplies all type-only inputs without subtype through ONE
 	// Typed(a, nil, b, ...) option with nil values in between (nil values
 	// must simply be ignored).
@@ -1026,6 +1029,10 @@ func (in *Inst) InputArgs(call int) []am.Arg {
 				grouped = append(grouped, e)
 			}
 			grouped = append(grouped, mk(l.Type, id).Interface())
+			continue
+		}
+		if in.MixCase != nil && l.Name != "" {
+			args = append(args, am.NamedSubtype(mixCase(l.Name, in.MixCase), mk(l.Type, id).Interface(), l.Sub))
 			continue
 		}
 		args = append(args, InputArg(l, id))
